@@ -45,12 +45,35 @@ theorem densify_nonpos_errors (E : Env K) (r : K) (hr : r ≤ 0) (coords : List 
     densify E r coords = .error .valueError := by
   cases coords <;> simp [densify, densifyWith, hr]
 
+/-- what a successful `densify` call of the repaired tree is: the empty list for the empty list, the
+non-empty core (`densifyWith`) otherwise -/
+theorem densify_cases (E : Env K) (r : K) (coords out : List (Pt K)) (h : densify E r coords = .ok out) :
+    (coords = [] ∧ out = [] ∧ 0 < r) ∨ (coords ≠ [] ∧ densifyWith shortEnough E r coords = .ok out) := by
+  cases coords with
+  | nil =>
+    left
+    simp only [densify] at h
+    by_cases hr : r ≤ 0
+    · simp [hr] at h
+    · simp only [hr, if_false, Except.ok.injEq] at h
+      exact ⟨rfl, h.symm, not_le.mp hr⟩
+  | cons p rest => exact Or.inr ⟨by simp, h⟩
+
+/-- **fix3-C07**: an empty coordinate list (empty LineString / ring / polygon shell) is handed back
+empty for every positive resolution — it used to be an `IndexError` (`densifyAsFound`) -/
+theorem densify_empty (E : Env K) (r : K) (hr : 0 < r) :
+    densify E r [] = .ok [] ∧ densifyAsFound E r [] = .error .indexError := by
+  have : ¬ r ≤ 0 := not_le.mpr hr
+  simp [densify, densifyAsFound, densifyWith, this]
+
 /-- **No edge of the output is longer than the resolution** (repaired code; every direction and
 position of the edges, any number of vertices). -/
 theorem densify_gap_le (E : Env K) (r : K) (coords out : List (Pt K))
     (hE : CoordsOk E r coords) (h : densify E r coords = .ok out) : GapsLe r out := by
-  obtain ⟨hr, p, rest, rfl, rfl⟩ := densify_ok shortEnough E r coords out h
-  exact densifyFrom_gaps E r hr rest p hE
+  rcases densify_cases E r coords out h with ⟨_, rfl, _⟩ | ⟨_, h⟩
+  · trivial
+  · obtain ⟨hr, p, rest, rfl, rfl⟩ := densify_ok shortEnough E r coords out h
+    exact densifyFrom_gaps E r hr rest p hE
 
 /-- The code as found (F3) violates it: `densify([(0,0),(0,100)], 10)` returns its input. -/
 theorem densify_gap_le_F3_cex (E : Env Rat) :
@@ -318,7 +341,9 @@ theorem segmented_retains (E : Env K) (r : K) (g g' : Geom K) (h : segmentize E 
   intro c c' hr
   rcases hr with ⟨rfl, _⟩ | hd
   · exact ⟨List.Sublist.refl _, rfl, rfl⟩
-  · exact ⟨densify_retains shortEnough E r c c' hd, densify_first_last shortEnough E r c c' hd⟩
+  · rcases densify_cases E r c c' hd with ⟨rfl, rfl, _⟩ | ⟨_, hd⟩
+    · exact ⟨List.Sublist.refl _, rfl, rfl⟩
+    · exact ⟨densify_retains shortEnough E r c c' hd, densify_first_last shortEnough E r c c' hd⟩
 
 /-- ring areas (shoelace sums) are unchanged by `segmented` -/
 theorem segmented_area_preserved (E : Env K) (r : K) (g g' : Geom K) (h : segmentize E r g = .ok g') :
@@ -327,7 +352,9 @@ theorem segmented_area_preserved (E : Env K) (r : K) (g g' : Geom K) (h : segmen
   intro c c' hr
   rcases hr with ⟨rfl, _⟩ | hd
   · rfl
-  · exact densify_area_preserved shortEnough E r c c' hd
+  · rcases densify_cases E r c c' hd with ⟨rfl, rfl, _⟩ | ⟨_, hd⟩
+    · rfl
+    · exact densify_area_preserved shortEnough E r c c' hd
 
 /-! ### to_crs -/
 
@@ -828,7 +855,10 @@ theorem envReal_coordsOk (r : ℝ) (hr : 0 < r) : ∀ coords : List (Pt ℝ), Co
 consecutive pair of `densify`'s output is at distance `≤ r`. -/
 theorem densify_gap_le_real (r : ℝ) (coords out : List (Pt ℝ))
     (h : densify envReal r coords = .ok out) : GapsLe r out := by
-  have hr : 0 < r := (densify_ok shortEnough envReal r coords out h).1
+  have hr : 0 < r := by
+    rcases densify_cases envReal r coords out h with ⟨_, _, hr⟩ | ⟨_, h'⟩
+    · exact hr
+    · exact (densify_ok shortEnough envReal r coords out h').1
   exact densify_gap_le envReal r coords out (envReal_coordsOk r hr coords) h
 
 /-- … and so for every geometry kind -/
